@@ -354,6 +354,11 @@ func (e *Engine) verifyFunc(fc *FuncContract) (res *FuncResult) {
 			check(g.spec)
 		}
 	}
+	for _, as := range fc.asserts {
+		for _, a := range as {
+			check(a)
+		}
+	}
 	for ord, lc := range fc.loops {
 		for _, c := range lc.invariants {
 			check(c)
